@@ -117,7 +117,6 @@ var yieldSiteHits [1000]int64
 
 type yieldPolicy struct {
 	seed     uint64
-	hot      [3]int
 	counters [1000]int64
 }
 
@@ -127,10 +126,6 @@ func installYield(seed uint64, enabled bool) {
 		return
 	}
 	yp := &yieldPolicy{seed: seed}
-	r := common.NewRNG(seed ^ 0x5eed)
-	for i := range yp.hot {
-		yp.hot[i] = 800 + r.Intn(70)
-	}
 	verifhook.Set(yp.yield)
 }
 
@@ -144,7 +139,9 @@ func (yp *yieldPolicy) yield(site int) {
 	h ^= h >> 29
 	h *= 0xbf58476d1ce4e5b9
 	h ^= h >> 32
-	hot := site == yp.hot[0] || site == yp.hot[1] || site == yp.hot[2]
+	// "hot" sites of this run: about one site in eight, chosen by the seed
+	hs := common.Hash64([]byte{byte(site), byte(site >> 8), 0x68}) ^ (yp.seed * 0x9e3779b97f4a7c15)
+	hot := (hs>>17)%8 == 0
 	m := h % 16
 	switch {
 	case hot && m < 10:
@@ -190,6 +187,7 @@ type bench struct {
 	step     string
 
 	lastSnap atomic.Value // rpc.VerifConnState
+	extra    func() interface{} // case-specific part of the replay input
 
 	closeOnce  sync.Once
 	closeErrs  []string
@@ -292,8 +290,12 @@ func panicClass(v string) string {
 }
 
 func (b *bench) describe() map[string]interface{} {
-	return map[string]interface{}{"scenario": b.scenario, "action": b.action, "link": b.lk.Name(), "step": b.curStep(),
+	m := map[string]interface{}{"scenario": b.scenario, "action": b.action, "link": b.lk.Name(), "step": b.curStep(),
 		"reported": b.rep.list(), "peer_log": b.peer.logSummary(40)}
+	if b.extra != nil {
+		m["case"] = b.extra()
+	}
+	return m
 }
 
 // awaitCond blocks the calling (scenario) goroutine until cond holds.  A few
@@ -301,11 +303,22 @@ func (b *bench) describe() map[string]interface{} {
 // so that, if the condition can never hold, the system goes quiescent and the
 // deadlock detector (not a stopwatch) gives the verdict.
 func (b *bench) awaitCond(name string, cond func() bool) {
-	for i := 0; i < 50; i++ {
+	spins := 50
+	if strings.HasPrefix(name, "goroutines") {
+		spins = 1 // the goroutine scan stops the world: do not spin on it
+	}
+	for i := 0; i < spins; i++ {
 		if cond() {
 			return
 		}
 		runtime.Gosched()
+	}
+	// A short bounded nap (latency only, never a verdict) before parking.
+	for d := 50 * time.Microsecond; d < 3*time.Millisecond; d *= 2 {
+		time.Sleep(d)
+		if cond() {
+			return
+		}
 	}
 	id := b.ops.begin("await:" + name)
 	req := &awaitReq{name: name, cond: cond, ok: make(chan struct{})}
@@ -348,9 +361,34 @@ func (b *bench) checkLocksFree(where string) {
 	b.rec.Count("h2_checks", 1)
 }
 
+// leakedGoroutines is common.LibGoroutines(rpcPkgPrefix) with a reused dump
+// buffer (common.Goroutines allocates and clears 1 MiB per call, which
+// dominated the run time of this driver).
 func (b *bench) leakedGoroutines() []common.GoroutineInfo {
-	return common.LibGoroutines(rpcPkgPrefix)
+	stackBufMu.Lock()
+	defer stackBufMu.Unlock()
+	for {
+		n := runtime.Stack(stackBuf, true)
+		if n < len(stackBuf) {
+			var out []common.GoroutineInfo
+			for _, g := range common.ParseGoroutines(string(stackBuf[:n])) {
+				for _, f := range g.Frames {
+					if strings.HasPrefix(f, rpcPkgPrefix) {
+						out = append(out, g)
+						break
+					}
+				}
+			}
+			return out
+		}
+		stackBuf = make([]byte, 2*len(stackBuf))
+	}
 }
+
+var (
+	stackBufMu sync.Mutex
+	stackBuf   = make([]byte, 128<<10)
+)
 
 // ---------------------------------------------------------------------------
 // application-side operations (each is an entry of the pending table)
@@ -493,7 +531,7 @@ func (b *bench) postMortem() {
 			b.rec.Count("wire_ends_in_partial_frame", 1)
 		}
 		viol, nt := checkTornWrites(wire, torn, sl.rwc.packed)
-		b.rec.Count("torn_frames", int64(nt))
+		b.rec.Count("writes_cut_inside_frame", int64(nt))
 		if viol != "" {
 			b.violate("C09/bytes-after-torn-frame/"+sl.Name(), viol, "",
 				map[string]interface{}{"scenario": b.scenario, "action": b.action, "wire": common.Hex(wire), "link": sl.Name(), "deadlines": sl.deadlines})
@@ -549,6 +587,18 @@ func runWatched(rec *common.Recorder, idx uint64, prop string, get func() *bench
 			return true
 		default:
 			return false
+		}
+	}
+	// Fast phase (latency only): most cases finish within a few
+	// milliseconds; WaitDone's polling schedule would double that.
+	for i := 0; i < 80; i++ {
+		select {
+		case <-done:
+			return caseOK
+		case <-time.After(400 * time.Microsecond):
+			if b := get(); b != nil {
+				b.pollAwait()
+			}
 		}
 	}
 	rep, inconclusive := w.WaitDone(isDone, 120*time.Second)
@@ -631,6 +681,12 @@ func classifyDeadlock(b *bench, rep *common.DeadlockReport, prop string) (sig, w
 	names := b.ops.names()
 	what = fmt.Sprintf("system quiescent with pending operations %v (scenario %s, action %s, link %s); parked: %s",
 		names, b.scenario, b.action, b.lk.Name(), rep.Signature)
+	if sl, ok := b.lk.(*streamLink); ok {
+		wire, torn, _ := sl.wireCopy()
+		if viol, _ := checkTornWrites(wire, torn, sl.rwc.packed); viol != "" {
+			return prop + "/bytes-after-torn-frame/" + sl.Name(), viol + "; the peer cannot parse what follows, pending operations " + strings.Join(names, ",") + " hang"
+		}
+	}
 	if coreWaitCycle(rep) {
 		return prop + "/core-promise-wait-cycle", "capnp core: Promise.resolve/ClientPromise.Fulfill waits for a call on the promised client that itself waits for the resolution (DESIGN.md §4 #12, property C11); pending " + strings.Join(names, ",")
 	}
@@ -664,6 +720,9 @@ func classifyDeadlock(b *bench, rep *common.DeadlockReport, prop string) (sig, w
 	if _, ok := b.ops.has("conn-done"); ok {
 		return prop + "/done-never-closes/" + b.action, "Conn.Done never closes"
 	}
+	if n, ok := b.ops.has("peer-wait:probe"); ok {
+		return "C08/wedged/" + b.action + "/" + rep.Signature, "connection neither answers a Bootstrap probe nor shuts down (" + n + "); parked: " + rep.Signature
+	}
 	if n, ok := b.ops.has("call:"); ok {
 		if prop == "C08" {
 			return "C08/caller-hangs/" + b.action, "local call never resolves: " + n
@@ -674,9 +733,6 @@ func classifyDeadlock(b *bench, rep *common.DeadlockReport, prop string) (sig, w
 		if n, ok := b.ops.has(p); ok {
 			return prop + "/op-hangs/" + n + "/" + b.action, "local operation never completes: " + n
 		}
-	}
-	if n, ok := b.ops.has("probe"); ok {
-		return "C08/wedged/" + b.action, "connection neither answers a Bootstrap probe nor shuts down (" + n + ")"
 	}
 	return "deadlock/" + rep.Signature, what
 }
